@@ -22,8 +22,33 @@ class Coder09(VCoder):
     """Invariants and postconditions also call the documented after()/idle() predicates (their value does not matter):
     whatever they read, reading it may not change the run."""
 
+    @staticmethod
+    def _mark(code):
+        """before every send()/notify() the code tells the harness which name it is about to send"""
+        import re
+        out = []
+        for line in code.split('\n'):
+            m = re.match(r"(send|notify)\('([^']+)'", line)
+            if m:
+                out.append('SN(%r)' % m.group(2))
+            out.append(line)
+        return '\n'.join(out)
+
+    def entry(self, ch, n):
+        return self._mark(VCoder.entry(self, ch, n))
+
+    def exit(self, ch, n):
+        return self._mark(VCoder.exit(self, ch, n))
+
+    def action(self, ch, t):
+        return self._mark(VCoder.action(self, ch, t))
+
     def cond(self, ch, owner_is_transition, cid, kind):
         c = VCoder.cond(self, ch, owner_is_transition, cid, kind)
+        if kind == 'inv' and not owner_is_transition:
+            # at the end of a step sent(name) holds exactly for the names the code sent or notified during the step:
+            # a condition that says so holds, and must not be what makes the checked run differ from the unchecked one
+            c += " and (sent('m0') == N('m0')) and (sent('m1') == N('m1'))"
         if kind != 'pre':
             import zlib
             h = zlib.crc32(cid.encode()) % 4
@@ -107,7 +132,9 @@ def run_case(acc, rnd, tier, case):
         sc, tmap = build.build_api(ch, coder=CODER)
         pr = Probes(val=make_val(valseed, p_true))
         pr.cond_plan = cond_plan
-        it = Interpreter(sc, initial_context=pr.context(v=0, box=Box(), lst=[], res={'h': Handle()}), ignore_contract=ignore,
+        pr.names = []
+        it = Interpreter(sc, initial_context=pr.context(v=0, box=Box(), lst=[], res={'h': Handle()}, SN=pr.names.append,
+                                                        N=lambda name, _l=pr.names: name in _l), ignore_contract=ignore,
                          evaluator_klass=EagerEvaluator if eager else PythonEvaluator, clock=ticking_clock() if ticking else None)
         it.attach(pr.listener())
         if with_property:
@@ -135,6 +162,7 @@ def run_case(acc, rnd, tier, case):
             rb.apply(op)
             continue
         pa.stepno = pb.stepno = k
+        del pa.names[:], pb.names[:]
         oa = ra.apply(op)
         la = list(pa.log)
         ob = rb.apply(op)
